@@ -47,6 +47,12 @@ def step (s : St) (ws : List String) : St × String :=
     else match k.toNat? with
       | some k => if (party? s.w k).isSome then ({ s with self := some k, hasChain := true }, "ok") else (s, "bad-op")
       | none => (s, "bad-op")
+  | ["mb2", t2, st] =>
+    -- a second magic block (same miners, another T) WITHOUT a DKG of its own: the threshold of the beacon is the T of
+    -- the DKG in force (`dkg.T`), so nothing changes in the model
+    match t2.toNat?, st.toNat? with
+    | some t2, some st => if t2 < 1 ∨ st < 1 then (s, "bad-op") else (s, "ok")
+    | _, _ => (s, "bad-op")
   | ["round", rn, tc, prev, h] =>
     match rn.toInt?, tc.toNat?, Fr.parse? h, s.hasChain with
     | some rn, some tc, some h, true =>
